@@ -1366,6 +1366,46 @@ def fam_buildtype_configure(setup_states=None, cross=False):
                                     'nsrc': 1 + (1 if s0 else 0)}}
 
 
+WIPE_NAMES = ['vstr', 'vcombo', 'vbool', 'warning_level', 'default_library', 'werror', 'unity_size', 'bindir', 'wrap_mode']
+
+
+def fam_wipe(cross=False):
+    """`meson setup --wipe` with and without new -D values, after a setup whose command line gave the option (or not): the wipe
+    configures the directory again from the recorded command line plus its own, and its own command line is the highest-priority
+    source (Commands.md, setup --wipe: "Wipe build directory and reconfigure using previous command line options"; a value given
+    now is a command-line value like any other).  Tier B only (a real build directory)."""
+    for name in WIPE_NAMES:
+        k = ALLK[name]
+        vals = distinct_vals(k)
+        if len(vals) < 2:
+            continue
+        proj = name in PK
+        v1, v2 = vals[1 % len(vals)], vals[-1] if vals[-1] != vals[1 % len(vals)] else vals[0]
+        for first in ('C', 'none'):
+            for second in ('same-option', 'none', 'other-option', 'twice'):
+                scn = new_scn(cross, False)
+                if proj:
+                    scn['top_decl'].append([name, name, vals[0], False])
+                if first == 'C':
+                    put(scn, 'C', name, v1)
+                now = v1 if first == 'C' else vals[0]
+                cmds = []
+                exp = {'top:' + name: ['eq', now]}
+                other = 'datadir' if name != 'datadir' else 'bindir'
+                steps = {'same-option': [[[name, cstr(v2), 'D']]], 'none': [[]], 'other-option': [[[other, 'sh2', 'D']]],
+                         'twice': [[[name, cstr(v2), 'D']], []]}[second]
+                for i, cmd in enumerate(steps):
+                    for n_, v_, _st in cmd:
+                        if n_ == name:
+                            now = v2
+                    exp['wc%d:ok' % i] = ['eq', True]
+                    exp['wc%d:top:%s' % (i, name)] = ['eq', now]
+                scn['wipecmd'] = steps
+                scn['obs'] = [['top', name]]
+                yield {'fam': 'wipe', 'scn': scn, 'exp': exp, 'reject': 'mustnot',
+                       'meta': {'name': name, 'first': first, 'second': second, 'nsrc': 1 + (first == 'C')}}
+
+
 CONF_FLAG_NAMES = ['warning_level', 'werror', 'unity_size', 'default_library', 'optimization', 'wrap_mode', 'python.bytecompile',
                    'force_fallback_for', 'bindir']
 
@@ -1949,7 +1989,7 @@ def judge(case, res, tier):
     # every observed effective value is a valid value of the option that was asked for
     for okey, got in res['obs'].items():
         parts = okey.split(':')
-        if parts[0].startswith(('conf', 'cc')) and len(parts) < 3:
+        if parts[0].startswith(('conf', 'cc', 'wc')) and len(parts) < 3:
             continue
         k = kind_of(parts[-1])
         # (also where the docs do not say which value it is -- an expectation of the kind 'skip' -- it has to be a valid one)
@@ -2150,6 +2190,25 @@ def run_b(scn, keep=False, cold=False):
             res['obs']['cc%d:unchanged' % i] = (before == after)
             if keep:
                 res.setdefault('conf_out', []).append([cargv, rc.out[-500:]])
+    if res['obs'] and not res['crash']:
+        for i, cmd in enumerate(scn.get('wipecmd') or []):
+            # `meson setup --wipe bld <args>`: the directory is configured again from the recorded command line plus this one
+            wargv = ['setup', '--wipe', 'bld'] + c_argv(cmd)
+            rw = mp.cold_meson(wargv, root, mp.base_env(), timeout=300) if cold else mp.run_meson(wargv, root, timeout=120)
+            if rw.unhandled:
+                res['crash'] = ['wc%d' % i, rw.out[-700:]]
+                break
+            res['obs']['wc%d:ok' % i] = rw.rc == 0
+            try:
+                with open(os.path.join(root, 'bld', 'meson-info', 'intro-buildoptions.json'), encoding='utf-8') as f:
+                    d = {o['name']: o['value'] for o in json.load(f)}
+            except (OSError, ValueError) as e:
+                d = {}
+            for w, n in scn['obs']:
+                if w == 'top':
+                    res['obs']['wc%d:top:%s' % (i, n)] = d.get(n, '<<missing>>')
+            if keep:
+                res.setdefault('conf_out', []).append([wargv, rw.out[-500:]])
     if not keep:
         shutil.rmtree(root, ignore_errors=True)
     else:
@@ -2477,6 +2536,7 @@ def tier_b_cases(ck):
     out += [c for c in fam_buildtype_top_flag(pm_max=1 if ck.thorough else 0) if c['meta']['a'] == 1 + seed % 2]
     out += [c for c in fam_buildtype_configure(setup_states=None if ck.thorough else [[]]) if c['meta']['a'] == seed % 2]
     out += list(fam_conf_flag(bases=None if ck.thorough else [['C']]))
+    out += list(fam_wipe())
     # ---- the machine-file source given as several layered files: the four disjoint pairs of a matching per project; every
     # placement x competitors; one assignment (quick: native with two layers, cross for the pairs within a section; thorough: also three layers)
     for matching in range(len(LAYER_MATCHINGS)):
